@@ -196,16 +196,21 @@ func Copy(src, dst string) error {
 // original.  If the destination file already exists it will be overwritten.
 func Move(src, dst string) error {
 	var err error
-	if err = os.Rename(src, dst+LockExt); err != nil {
-		if _, err = os.Stat(src); err != nil {
-			return err
-		}
-		if err = Copy(src, dst+LockExt); err != nil {
-			return err
-		}
-		if err = os.Remove(src); err != nil {
-			return err
-		}
+	// A rename straight onto the destination is atomic: neither a reader of the
+	// destination directory nor a crash can ever find the file under its lock
+	// name only.  The lock name is needed only while the content is copied.
+	if err = os.Rename(src, dst); err == nil {
+		verifhook.Point("fileutil.d.move.done", dst)
+		return nil
+	}
+	if _, err = os.Stat(src); err != nil {
+		return err
+	}
+	if err = Copy(src, dst+LockExt); err != nil {
+		return err
+	}
+	if err = os.Remove(src); err != nil {
+		return err
 	}
 	verifhook.Point("fileutil.d.move.lck", dst)
 	if err = os.Rename(dst+LockExt, dst); err != nil {
